@@ -242,6 +242,20 @@ fn one_case_edit(inp: &Input, edit: Option<i32>, qrng: &mut Rng, out: &mut dyn W
             s.push_str(&dump_circuit(&d));
             writeln!(s, "impl nvars {}", d.number_of_variables).unwrap();
             let path = scratch_path();
+            // every second case saves over an existing, longer file (an earlier save of a bigger model)
+            if qrng.coin() {
+                let mut old = String::from("nnf 400 399 1\n");
+                for _ in 0..399 {
+                    old.push_str("L 1\n");
+                }
+                old.push_str("A 399");
+                for i in 0..399 {
+                    old.push_str(&format!(" {}", i));
+                }
+                old.push('\n');
+                std::fs::write(&path, old).unwrap();
+                writeln!(s, "impl target_existed 1").unwrap();
+            }
             let saved = guarded(|| write_ddnnf_to_file(&d, &path));
             match saved {
                 Err(e) => writeln!(s, "impl panic save {}", e).unwrap(),
